@@ -282,6 +282,29 @@ def run(ctx):
                         if shown != want_rows:
                             res.violations.append(vlib.Violation("the rows shown at --threshold=%s are not the items whose JSON v2 levelOfConcern is >= the threshold" % t, inp,
                                                                  expected=want_rows, observed=shown))
+        # the threshold in force is the one of the LAST threshold option, also when an option is given again after another one
+        fam = [["--verbose"], ["-v"], ["--no-verbose"], ["--critical"], ["--threshold=0"], ["--threshold=1000"], ["--threshold=0.5"], ["--threshold=1e6"],
+               ["--verbose=false"], ["--critical=false"]]
+        last_alone = {}
+        nseq = 0
+        for a in fam:
+            for b in fam:
+                if a == b:
+                    continue
+                for seq in (a + b + a, b + a + a, a + a + b + a):
+                    key = tuple(seq[-1:])
+                    if key not in last_alone:
+                        last_alone[key] = eng.run_fake(sc, order, [], [], extra_args=list(key) + ["--no-progress", "--names=hash"])[:2]
+                    rcs, outs_, errs_, _ = eng.run_fake(sc, order, [], [], extra_args=seq + ["--no-progress", "--names=hash"])
+                    nseq += 1
+                    res.case(("option-sequence", tuple(seq)), True)
+                    # `=false` forms leave the threshold alone: skip sequences whose last option is one of them
+                    if seq[-1].endswith("=false"):
+                        continue
+                    if (rcs, outs_) != last_alone[key]:
+                        res.violations.append(vlib.Violation("the table is not the one of the last threshold option on the command line", {"argv": seq},
+                                                             expected=last_alone[key][1][:400].decode("latin1"), observed=outs_[:400].decode("latin1")))
+        res.coverage_extra["threshold_option_sequences"] = nseq
     finally:
         eng.close()
     res.coverage_extra["input_distribution"] = stats
